@@ -5,7 +5,7 @@
 From TV Require Import Base.Prelude Base.Utf8 Base.Winnow Gen.Consts Spec.Abnf Spec.Lex Spec.Defs Spec.Syntax.
 From TV Require Import Model.Tree Model.Parse Model.Document.
 From TV Require Import Proofs.DefsEquivBase Proofs.DefsEquivKv Proofs.DefsEquivMain.
-From TV Require Import Proofs.GrammarBase Proofs.GrammarDoc Proofs.GrammarDocComplete.
+From TV Require Import Proofs.GrammarBase Proofs.GrammarDoc Proofs.GrammarDocComplete Proofs.GrammarDocReject.
 
 Lemma verdict_valid stmts T : verdict stmts = Valid T ->
   forallb stmt_ok stmts = true /\ spec_run (map stmt_den stmts) = Valid T /\ code_run (map stmt_den stmts) = Valid T.
@@ -64,3 +64,35 @@ Proof.
   exists stmts. split; [exact Ht|]. split; [exact Hwi|]. split; [exact Hn|]. split; [|exact Hc].
   intros T HT. symmetry. apply (Hu T HT).
 Qed.
+
+(* ---- from ANY derivation of the text (Proofs/GrammarDocReject.v) ------------------------------------ *)
+Theorem c02_tree s d stmts T :
+  parse_document s = POk d -> toml_text s stmts -> verdict stmts = Valid T -> abs_doc d = T.
+Proof.
+  intros Hp Ht Hv. destruct (verdict_valid stmts T Hv) as (_ & _ & Hc).
+  destruct (parse_document_total s d stmts Hp Ht) as (_ & _ & Hc'). congruence.
+Qed.
+
+(* a text with a derivation that the specification forbids, or that is outside the limits, is refused *)
+Theorem c01_invalid_rejected s stmts : toml_text s stmts ->
+  verdict stmts = Invalid \/ within_limits stmts = false -> forall d, parse_document s <> POk d.
+Proof.
+  intros Ht Hbad d Hp. destruct (parse_document_total s d stmts Hp Ht) as (Hok & Hwi & Hc).
+  destruct Hbad as [Hv | Hw]; [|congruence]. apply (proj1 (verdict_of_code stmts _ Hok Hc)), Hv.
+Qed.
+
+(* acceptance, decided on any derivation outside class U1 *)
+Theorem c01_exact s stmts : toml_text s stmts -> verdict stmts <> Undecided ->
+  ((exists d, parse_document s = POk d) <-> ((exists T, verdict stmts = Valid T) /\ within_limits stmts = true)).
+Proof.
+  intros Ht Hu. split.
+  - intros (d & Hp). destruct (parse_document_total s d stmts Hp Ht) as (Hok & Hwi & Hc). split; [|exact Hwi].
+    destruct (verdict stmts) as [T| |] eqn:Ev; [eauto| |congruence].
+    exfalso. apply (proj1 (verdict_of_code stmts _ Hok Hc)), Ev.
+  - intros [(T & Hv) Hwi]. apply (c01_complete s stmts T Ht Hv Hwi).
+Qed.
+
+(* all derivations of an accepted text denote the same tree *)
+Corollary c02_derivations_agree s d l1 l2 T1 T2 :
+  parse_document s = POk d -> toml_text s l1 -> toml_text s l2 -> verdict l1 = Valid T1 -> verdict l2 = Valid T2 -> T1 = T2.
+Proof. intros Hp H1 H2 V1 V2. rewrite <- (c02_tree s d l1 T1 Hp H1 V1). apply (c02_tree s d l2 T2 Hp H2 V2). Qed.
